@@ -11,7 +11,7 @@ import ast
 from ..astutil import calls, text, walk_no_nested
 from ..index import AnalysisError
 from ..report import Ctx
-from .common import call_nodes, cfg_of, guards, is_reporter_call, reporter_calls
+from .common import call_nodes, cfg_of, fixed_value_space_rule, guards, is_reporter_call, reporter_calls
 
 ELEM = 'xmlschema.validators.elements.XsdElement'
 DEC = f'{ELEM}.raw_decode'
@@ -185,6 +185,14 @@ def rule_c(ctx: Ctx) -> None:
     p = [x for x in ib.params if x != 'self'][0]
     blk = [s for s in walk_no_nested(ib.node) if isinstance(s, ast.Assign) and text(s.targets[0]) == 'block']
     ok = len(blk) == 1 and f'{p}.block' in text(blk[0].value) and 'xsd_type.block' in text(blk[0].value)
+    if ok:
+        # a union, not a choice: neither operand may sit under `or` / `and` / a conditional expression
+        from ..astutil import enclosing_map as _em, ancestors as _anc
+        par_ = _em(blk[0].value)
+        for a_ in ast.walk(blk[0].value):
+            if isinstance(a_, ast.Attribute) and a_.attr == 'block':
+                if any(isinstance(x, (ast.BoolOp, ast.IfExp)) for x in [blk[0].value] + list(_anc(a_, par_))):
+                    ok = False
     tdef = [s for s in walk_no_nested(ib.node) if isinstance(s, ast.Assign) and text(s.targets[0]) == 'xsd_type']
     ok = ok and len(tdef) == 1 and text(tdef[0].value) == f'{p}.type'
     ctx.ob(rule, 'is_blocked combines the block of the element and of its declared type', ib.loc(), ok, '', key='is_blocked|levels')
@@ -259,4 +267,11 @@ def rule_c(ctx: Ctx) -> None:
                 'under block=substitution / blocked derivation; abstract declarations are refused or delegated.')
 
 
-RULES = [rule_a, rule_b, rule_c]
+def rule_d(ctx: Ctx) -> None:
+    rule = 'C07.d'
+    f = ctx.idx.func(DEC)
+    fixed_value_space_rule(ctx, rule, f, 'XsdElement.raw_decode (simple content)', ('text', 'value'))
+    ctx.explain('C07.d: the fixed-value report of XsdElement.raw_decode is guarded by a comparison of decoded values.')
+
+
+RULES = [rule_a, rule_b, rule_c, rule_d]
